@@ -23,7 +23,14 @@ ENTRY_POINTS = [
 ] + [(f'{N.DOCUMENT}.Document.{m}', False) for m in (
     'get_all_tokens', 'get_all_tokens_encodings', 'get_unique_tokens', 'get_unique_token_encodings', 'frequencies',
     'get_metacomments', 'get_header_nodes', 'get_spine_ids', 'get_spine_count', 'get_first_measure', 'measures_count',
-    '__iter__', '__next__', 'get_leaves', 'get_header_stage', 'get_voices', 'tokens_to_encodings', 'match')]
+    '__iter__', '__next__', 'get_leaves', 'get_header_stage', 'get_voices', 'tokens_to_encodings', 'match')] + [
+    # the category algebra works on a class-level literal and on caller-supplied sets: shared defaults must never be modified
+    (f'{N.MAPPER}.{m}', False) for m in ('is_child', 'children', 'nodes', 'leaves', 'valid', 'match', 'all', 'tree')] + [
+    (f'{N.TOKCAT}.{m}', False) for m in ('is_child', 'children', 'nodes', 'leaves', 'valid', 'match', 'all', 'tree')] + [
+    (f'{N.EXPORTER}.get_kern_from_ekern', False), (f'{N.EXPORTER}.HeaderTokenGenerator.new', False),
+    (f'{N.TOKENIZERS}.TokenizerFactory.create', False), (f'{N.GKERN}.pitch_to_gkern_string', False),
+    (f'{N.GKERN}.gkern_to_g_clef_pitch', False), (f'{N.TRANSPOSER}.transpose', False), (f'{N.TRANSPOSER}.distance', False),
+]
 
 
 def describe_root(f, root):
